@@ -129,6 +129,32 @@ def run(ctx):
         ctx.require_coverage("retrychain", k, shapes.get(k, 0), 10)
     ctx.require_coverage("retrychain", "chains_with_3_or_more_executions", multi, 30)
     run_l1(ctx, ctx.n(100, 4000), l1_monitor, THEOREMS, need=("retry_queued", "fail_workflow"))
+    # events that waited in a busy step's queue before their first attempt: elapsed is measured from that first attempt
+    from props._engine_common import run_l2, report_l2
+    from suites import engine_specs as S
+
+    def queue_monitor(spec, rec, obs):
+        out, first, queued = [], {}, 0
+        sent_at = {r["i"]: r["t"] for r in rec.log if r["kind"] == "send"}
+        for r in rec.log:
+            if r["kind"] != "enter" or r["step"] != "b_work":
+                continue
+            if r["i"] not in first:
+                first[r["i"]] = r["t"]
+                if r["t"] > sent_at.get(r["i"], r["t"]):
+                    queued += 1
+                if r["retry"] != 0:
+                    out.append("first execution of event %s has retry_number %s" % (r["i"], r["retry"]))
+            else:
+                real = Fraction(r["t"]) - Fraction(first[r["i"]])
+                if Fraction(r["elapsed"]) != real:
+                    out.append("event %s, retry %d: retry_info().elapsed_seconds=%s but %s s elapsed since its first attempt began "
+                               "(it had waited %s s in the queue before)" % (r["i"], r["retry"], r["elapsed"], float(real),
+                                                                               first[r["i"]] - sent_at.get(r["i"], first[r["i"]])))
+        return out, dict(events_that_waited_in_queue=queued, retries=sum(1 for r in rec.log if r["kind"] == "enter" and r["retry"]))
+    fails2, facts = run_l2(ctx, [S.queuewait], ctx.n(40, 1500), queue_monitor,
+                           need=(("events_that_waited_in_queue", 20), ("retries", 30)), label="engine.queuewait")
+    report_l2(ctx, fails2)
 
 
 def replay(ctx, path):
